@@ -247,6 +247,66 @@ class SinkSessions(Stage):
         return res
 
 
+class GdbMode(Stage):
+    """the live view in GDB mode: closures delivered through the plugin's breakpoints from several threads, with a filter;
+    every message is recorded, exactly the matching ones are shown (kept last: it makes a `gdb` module importable)"""
+    name = 'gdb-mode'
+
+    def examples(self, tier):
+        return 100 if tier == 'quick' else 14 * 800
+
+    def gen(self, d, tier):
+        specs = histgen.history(d, nconn=d.int(1, 2), nmsg=d.int(4, 30), profile=PROFILE, tagged=True)
+        g = rm.Gen(d, rm.vocab(specs), 1)
+        return dict(specs=specs, filter=scripts.gen_matcher_text(d, g) if d.chance(0.5) else None, threads=[d.choice([1, 1, 2, 3]) for _ in range(d.int(1, 6))])
+
+    def execute(self, case):
+        from .. import gdbsim
+        from core import matcher
+        res = Result()
+        res.evals = 0
+        flt = matcher.parse(case['filter']).simplify() if case.get('filter') else matcher.always
+        drv = gdbsim.Driver(filter_text=case.get('filter'))
+        try:
+            P = histgen.protocols()
+            tags, sides = {}, {}
+            for k, m in enumerate(case['specs']):
+                conn = tags.setdefault(m['conn'], len(tags))
+                decl = P[m['iface']].msg(m['name']) if m['iface'] in P and not (m['iface'] == 'wl_registry' and m['name'] == 'bind') else None
+                if conn not in sides:
+                    ev = decl.is_event if decl is not None else False
+                    sides[conn] = 'client' if (m['sent'] != ev) else 'server'
+                c = gdbsim.closure_of_message(m, sides[conn], conn, decl)
+                c['thread'] = case['threads'][k % len(case['threads'])]
+                c['thread_name'] = None if c['thread'] != 1 else 'main'
+                n0 = len(drv.out.buffer)
+                nrec = len(drv.ctl.all_messages)
+                drv.deliver(c)
+                res.evals += 1
+                if len(drv.ctl.all_messages) != nrec + 1:
+                    res.bad('gdb:message-not-recorded', 'closure %d (%s.%s on thread %d) was not recorded; err=%r' % (k, m['iface'], m['name'], c['thread'], drv.err.buffer[-200:]))
+                    continue
+                msg = drv.ctl.all_messages[-1]
+                shown = [l for l in drv.out.buffer[n0:].split('\n')[:-1] if session.MSG_LINE.match(l)]
+                exp = flt.matches(msg)
+                if len(shown) > 1 or bool(shown) != exp:
+                    res.bad('gdb:shown-but-filtered-out' if shown else 'gdb:matching-message-not-shown', '%s %s; filter %r' % (str(msg), 'shown' if shown else 'not shown', case.get('filter')))
+            per = {}
+            for m in drv.ctl.all_messages:
+                if m.obj.connection is not None:
+                    per.setdefault(m.obj.connection.name(), []).append(m)
+            for c in drv.cm.connections():
+                own = [m for m in c.messages() if m.obj.connection is not None]
+                if own != per.get(c.name(), []):
+                    res.bad('gdb:connection-record-differs', c.name())
+        finally:
+            drv.close()
+        res.nontrivial = len(set(case['threads'])) > 1 and len(case['specs']) >= 5
+        res.label('gdb-mode')
+        res.sample = dict(filter=case.get('filter'), threads=case['threads'], lines=[wire.render(m, 'new') for m in case['specs'][:6]])
+        return res
+
+
 class C06(Prop):
     id = 'C06'
     rule = ('a generated multi-connection history streams through the real pipeline from a scripted reader; between lines the script issues '
@@ -257,7 +317,7 @@ class C06(Prop):
             'distinct by SHA-1 of the case.')
     assumptions = ['matcher meaning is C05\'s business: expectations use an independently parsed copy of the same matcher text',
                    'filters are replaced via `filter !` then `filter <m>` (accumulation is C12\'s business)']
-    stages = [Sessions(), CrossTalk(), SinkSessions()]
+    stages = [Sessions(), CrossTalk(), SinkSessions(), GdbMode()]
 
 
 PROP = C06()
